@@ -1,7 +1,9 @@
 import DoitModel.Proofs.C13Forget
+import DoitModel.Proofs.C13Fuel
 import DoitModel.Proofs.C13Ignore
 import DoitModel.Proofs.C13Reset
 import DoitModel.Proofs.C13Persist
+import DoitModel.Proofs.C13Spec
 /-! # C13 — forget, ignore and reset-dep have exactly their documented effect
 
 Model: `Model/Cmds.lean` (task graph, target lists of the three commands, a run that honours ignore marks) on the
@@ -10,16 +12,17 @@ theorems of the two pinned defects live here; lemmas are in `Proofs/C13*.lean`. 
 namespace DoitModel.C13
 open DoitModel.Status DoitModel.Cmds
 
-/-- **forget (effect on the DB).**  For every task set, DB state, argument form and `default_tasks` setting: unless
-    an argument names no task (then nothing changes, `C13_forget_unknown_name`), after `forget` the record of every
-    task of the documented selection `ForgetSel` is empty, every other record is what it was, and files, task
-    definitions and checker are untouched.  (`.fuel` is the model's explicit out-of-fuel result of the closure
-    iteration; the driver evaluates the hypothesis on every generated case.) -/
-theorem C13_forget (g : Graph) (a : ForgetArgs) (dflt : Option (List Name)) (s : St)
-    (hfuel : forgetTarget true g a dflt ≠ .fuel) (hknown : ∀ n, forgetTarget true g a dflt ≠ .notATask n) :
+/-- **forget (effect on the DB).**  For every well-formed task set (every declared `task_dep` / `setup` names a task:
+    enforced by the loader, C18; decidable, evaluated by the driver on every case), DB state, argument form and
+    `default_tasks` setting: unless an argument names no task (then nothing changes, `C13_forget_unknown_name`), after
+    `forget` the record of every task of the documented selection `ForgetSel` is empty, every other record is what it
+    was, and files, task definitions and checker are untouched. -/
+theorem C13_forget (g : Graph) (hwf : g.WF = true) (a : ForgetArgs) (dflt : Option (List Name)) (s : St)
+    (hknown : ∀ n, forgetTarget true g a dflt ≠ .notATask n) :
     (∀ x, ForgetSel g a dflt x → (forgetCmd true g a dflt s).rcd x = Rcd.empty) ∧
     (∀ x, ¬ForgetSel g a dflt x → (forgetCmd true g a dflt s).rcd x = s.rcd x) ∧
     (forgetCmd true g a dflt s).fs = s.fs ∧ (forgetCmd true g a dflt s).defs = s.defs := by
+  have hfuel := forgetTarget_ne_fuel true g hwf a dflt
   have hspec := forgetTarget_spec g a dflt
   unfold forgetCmd
   cases ht : forgetTarget true g a dflt with
@@ -42,6 +45,10 @@ theorem C13_forget (g : Graph) (a : ForgetArgs) (dflt : Option (List Name)) (s :
   | crash => rw [ht] at hspec; exact hspec.elim
   | fuel => exact absurd ht hfuel
 
+/-- `fuel_suffices`: the closure iteration of the model (`tasks_and_deps_iter`) always ends within its fuel -/
+theorem C13_forget_fuel_suffices (fixed : Bool) (g : Graph) (hwf : g.WF = true) (a : ForgetArgs)
+    (dflt : Option (List Name)) : forgetTarget fixed g a dflt ≠ .fuel := forgetTarget_ne_fuel fixed g hwf a dflt
+
 /-- an argument (or a configured default task) that names no task: the command is rejected, nothing is forgotten -/
 theorem C13_forget_unknown_name (g : Graph) (a : ForgetArgs) (dflt : Option (List Name)) (s : St) (n : Name)
     (h : forgetTarget true g a dflt = .notATask n) :
@@ -58,6 +65,7 @@ def gEx : Graph :=
     setup := fun t => if t = 1 then [0] else []
     subOf := fun t => if t = 3 then some 2 else none }
 
+example : gEx.WF = true := by decide
 example : forgetTarget true gEx ⟨[2], true, false, false⟩ none = .tasks [2, 3, 1, 0] := by decide
 example : forgetTarget true gEx ⟨[2], false, false, false⟩ none = .tasks [2, 3] := by decide
 example : forgetTarget true gEx ⟨[], false, false, false⟩ (some [4]) = .tasks [4] := by decide
@@ -295,5 +303,26 @@ example : sReset.status true 0 = .run ∧ (resetCmd gOne [] sReset).status true 
     ((resetCmd gOne [] sReset).rcd 0).result = some 7 ∧ (resetCmd gOne [] sReset).crashed = false ∧
     ((resetCmd gOne [] sReset).rcd 0).fstate 0 = some (.md5 3 5 3) ∧ (sReset.rcd 0).fstate 0 = some (.md5 1 4 1) := by
   decide
+
+/-! ## the monitor's specification sets
+
+The monitor (P) compares the implementation's DB dumps and reports with sets computed by the driver through the
+executable functions `forgetSpec` and `ignClosure` (saturation, independent of the model of the code).  They are the
+declarative sets of the theorems above whenever their fixpoint flags hold; the driver evaluates the flags on every
+case (`closed`), the harness treats a false flag as a broken check. -/
+
+theorem C13_monitor_forget_spec (g : Graph) (a : ForgetArgs) (dflt : Option (List Name))
+    (hc : forgetSpecClosed g a dflt = true) (x : Name) :
+    (match forgetSpec g a dflt with
+     | none => True
+     | some L => x ∈ L) ↔ ForgetSel g a dflt x := forgetSpec_iff g a dflt hc x
+
+theorem C13_monitor_ignore_spec (g : Graph) (defs : Name → TaskDef) (marks : List Name) (hwf : g.WF = true)
+    (hc : ignClosedB g defs (ignClosure g defs marks) = true) (x : Name) (hx : x ∈ g.names) :
+    x ∈ ignClosure g defs marks ↔ IgnReach g defs (fun k => decide (k ∈ marks)) x :=
+  ignClosure_iff g defs marks hwf hc x hx
+
+example : forgetSpec gEx ⟨[2], true, false, false⟩ none = some [2, 3, 1, 0] ∧
+    forgetSpecClosed gEx ⟨[2], true, false, false⟩ none = true := by decide
 
 end DoitModel.C13
